@@ -31,6 +31,9 @@ LineVerdict(e) ==
         ELSE IF S.ok = "abstain" THEN "inc:grammar outside JSyntax"
         ELSE IF S.ok = "no" THEN (IF o.o = "err" /\ o.k = "Parse" THEN "ok" ELSE "no;denote-malformed-text-accepted")
         ELSE IF o.o = "err" /\ o.k = "Parse" THEN "no;denote-valid-text-rejected"
+        \* a "$" may have become a variable reference (a mutated text): variables are not part of JSON texts, and the
+        \* scanner-level tree keeps their names as code points, which the evaluator specification does not look up
+        ELSE IF \E i \in 1..Len(B) : B[i] = 36 THEN "inc:text with a variable sign"
         ELSE LET v == Verdict(o, S.ast, IF HasF(e, "inp") THEN e.inp ELSE Inp, <<>>)
              IN  IF v = "ok" THEN
                       \* the reference decoder, where it accepted the text, must agree with the specification too
